@@ -22,6 +22,7 @@ RAW_BODIES = [
     '{"jsonrpc": "2.0", "method": 1, "id": 3}',
     "",
     '[{"jsonrpc": "2.0", "method": "echo", "params": ["RAWTOKEN"], "id": 9}, 5]',
+    '[{"jsonrpc": "2.0", "method": "echo", "params": ["RAWTOKEN"], "id": 1}, {"jsonrpc": "2.0", "method": "echo", "params": ["s"], "id": [7]}, {"jsonrpc": "2.0", "method": "echo", "params": ["t"], "id": {"a": 1}}]',
 ]
 
 
@@ -121,7 +122,7 @@ def gen_c12(rng, big=False):
                 body = '{"jsonrpc": "2.0", "method": "echo", "params": ["%s"], "id": 5}' % tok
                 ops.append(["rawtrunc", body, rng.randrange(0, len(body))])
             elif k < 0.96 and life != "handle-loop":
-                ops.append(["abort", rng.choice(["connect-close", "half-headers", "no-read", "garbage", "no-length"]), tok])
+                ops.append(["abort", rng.choice(["connect-close", "half-headers", "no-read", "garbage", "no-length", "hold-open"]), tok])
             else:
                 ops.append(["sleep", rng.choice([0.25, 0.5, 1.0])])
         clients.append({"version": rng.choice([None, None, 2.0, 1.0]), "history": False, "ops": ops})
@@ -403,6 +404,8 @@ class C12Scenario(object):
             p["client_aborted_connection"] = 1
         if any(o["kind"] == "abort" and o["op"][1] == "no-length" for o in h.ops.values()):
             p["request_without_length"] = 1
+        if any(o["kind"] == "abort" and o["op"][1] == "hold-open" for o in h.ops.values()):
+            p["client_keeps_its_connection_open_after_the_reply"] = 1
         if program["server"].get("npool") == "shared":
             p["shared_request_and_notification_pool"] = 1
         if program["server"].get("http11") and any(len(sysim.parse_http(c.c2s)) > 1 for c in (s.net.conns if s.net is not None else [])):
